@@ -72,6 +72,12 @@ class Context(object):
     self.rule = ""
     self.models = []
     self.exhaustive = False
+    import glob
+    for f in glob.glob(os.path.join(REPLAYS, "%s-*.json" % pid)):     # replay files of earlier runs are stale
+      try:
+        os.remove(f)
+      except OSError:
+        pass
 
   # ---- TLC bookkeeping
   def add_model(self, name, res, **kw):
